@@ -3,15 +3,15 @@
  "property": "C12",
  "standin": "B-gsu",
  "bound": "displays with <= 3 elements x 4 layouts x 4 kinds x delete subsets x 5 insert patterns (1500 sampled cases quick / all thorough) through the real apply_all + new_code",
- "input": "('dict', 'multi', ('1', '\"\"\"a\\nb\"\"\"'), (), {0: ['7'], 2: ['8']})",
- "detail": "result does not parse (unmatched '}'): 'x = \\'\u00e4\u00f6\\'; v =\\'k00\\': 7, 0: 1,\\n    1: \"\"\"a\\nb\"\"\", \\'k20\\': 8}  # tail\\ny = 2\\n'"
+ "input": "('dict', 'single', (\"'s'\", '((7) )'), (1,), {1: ['\"\"\"x\\ny\"\"\"']})",
+ "detail": "result does not parse (unterminated string literal (detected at line 1)): 'x = \\'\u00e4\u00f6\\'; v = {0: \\', \\'k10\\': \"\"\"x\\ny\"\"\" )}  # tail\\ny = 2\\n'"
 }
 """
 
 import sys, tempfile
 sys.path.insert(0, "/verif")
 from bounded.b_gsu import one_case
-msg = one_case(tempfile.mkdtemp(), *('dict', 'multi', ('1', '"""a\nb"""'), (), {0: ['7'], 2: ['8']}))
-print(('dict', 'multi', ('1', '"""a\nb"""'), (), {0: ['7'], 2: ['8']}), "->", msg)
+msg = one_case(tempfile.mkdtemp(), *('dict', 'single', ("'s'", '((7) )'), (1,), {1: ['"""x\ny"""']}))
+print(('dict', 'single', ("'s'", '((7) )'), (1,), {1: ['"""x\ny"""']}), "->", msg)
 assert msg is None, msg
 
